@@ -461,4 +461,30 @@ def C16(tier, seed):
     }
 
 
-REGISTRY = {"C10": C10, "C16": C16, "C01": C01, "C04": C04, "C05": C05, "C06": C06, "C12": C12, "C03": C03, "C02": C02, "C17": C17, "C11": C11, "C20": C20, "C09": C09, "C19": C19, "C18": C18, "C13": C13, "C07": C07, "C14": C14, "C15": C15}
+def C08(tier, seed):
+    q = tier == "quick"
+    bfs = Stage("bfs", ("Gen_Kahan", "Gen_Kahan.cfg"), ("Trace_Kahan", "Trace_Kahan.cfg"),
+                env={"PART": "bfs", "KAHAN_LEN": 3 if q else 4}, shards=8,
+                required=["C08.error_bound", "C08.value_semantics", "C08.act.add", "C08.act.merge", "C08.act.merge_by_plus",
+                          "C08.type.f32", "C08.type.f64"],
+                mc=[("MC_Kahan", "MC_Kahan.cfg", {"KAHAN_LEN": 5 if q else 7, "KAHAN_ALPHA": 12 if q else 8}, 8),
+                    ("MC_BigNum", "MC_BigNum.cfg", {}, 1)])
+    streams = Stage("streams", ("Gen_Kahan", "Gen_Kahan.cfg"), ("Trace_Kahan", "Trace_Kahan.cfg"),
+                    env={"PART": "streams"},
+                    required=["C08.error_bound", "C08.long_stream.f32", "C08.long_stream.f64", "C08.merge_tree",
+                              "C08.statistics_inherit", "C08.statistics.f32", "C08.statistics.f64", "C08.act.add_block", "C08.act.add_cycle"])
+    return {
+        "stages": [bfs, streams],
+        "exhaustive": True,
+        "rule": "model: every sequence of up to 5 (7) additions of an adversarial alphabet (values straddling 2^24, cancelling pairs, mixed magnitudes) "
+                "into two registers with merges at any point, in an exact binary32-over-integers model: |value - exact| <= 16 u sum|x| in every state. "
+                "Conformance: every program of 3 (4) steps of that machine on KahanSum<f32> and <f64> (AddAssign<T>, AddAssign<Self>, Add<Self>), and long "
+                "streams as block/cycle descriptors (10^6 (10^7) terms in f32, 10^5 (10^6) in f64: small increments over 2^24, cancelling cycles, mixed "
+                "magnitudes, 16-register merge trees with non-zero compensation, left folds) plus the same streams through Arithmetic; after every step TLC "
+                "compares value() with the exact sum it carries.",
+        "assumptions": TLC_TRUST + ["the constant 16 is established on the reference model for the explored shapes (DESIGN.md section 4, C08)",
+                                   "the pure-integer f32 model is limited to |sum| <= 2^30; the trace validator uses the arbitrary-precision kernel"],
+    }
+
+
+REGISTRY = {"C08": C08, "C10": C10, "C16": C16, "C01": C01, "C04": C04, "C05": C05, "C06": C06, "C12": C12, "C03": C03, "C02": C02, "C17": C17, "C11": C11, "C20": C20, "C09": C09, "C19": C19, "C18": C18, "C13": C13, "C07": C07, "C14": C14, "C15": C15}
